@@ -49,6 +49,7 @@ type dbScenario struct {
 	setup   []cop   // sequential prefix (not explored); "rot" = rotate + barrier
 	threads [][]cop // client threads
 	thresh  int
+	maxSize uint64 // CompactionMaxSizeBytes (0 = library default)
 	// bg: the real background compaction goroutine runs (its ticker is driven by the harness: op "tick"); a client may
 	// "close" the database; after the run no descriptor or mapping below the directory may remain (C19)
 	bg bool
@@ -63,6 +64,7 @@ func (d dbScenario) Bound(tier string) int {
 }
 
 var bigVal = strings.Repeat("B", 60)
+var hugeVal = string(incompressible(300, 40)) // a table holding it exceeds the 200-byte compaction size limit of S7
 
 func c05Scenarios() []dbScenario {
 	return []dbScenario{
@@ -85,6 +87,10 @@ func c05Scenarios() []dbScenario {
 		{name: "S6-overwrite-in-memstore-under-read", mem: 1 << 20, thresh: 10, quickBound: 2, thoroughBound: 3,
 			setup:   []cop{{"put", "a", "11"}},
 			threads: [][]cop{{{"put", "a", "22"}, {"put", "a", "3"}, {"put", "a", bigVal}}, {{"get", "a", ""}, {"get", "a", ""}}}},
+		// a compaction cycle that leaves the oldest (large) table out while the deleted key is read
+		{name: "S7-compaction-excluding-oldest-under-read", mem: 1 << 20, thresh: 1, maxSize: 200, quickBound: 1, thoroughBound: 2,
+			setup:   []cop{{"put", "a", hugeVal}, {"rot", "", ""}, {"del", "a", ""}, {"rot", "", ""}, {"put", "b", "1"}, {"rot", "", ""}},
+			threads: [][]cop{{{"compact", "", ""}}, {{"get", "a", ""}, {"get", "b", ""}, {"get", "a", ""}}}},
 		{name: "S5-compaction-drops-tombstone-under-write", mem: 1 << 20, thresh: 1, quickBound: 2, thoroughBound: 3,
 			setup:   []cop{{"put", "a", "1"}, {"rot", "", ""}, {"del", "a", ""}, {"rot", "", ""}},
 			threads: [][]cop{{{"compact", "", ""}}, {{"put", "a", "5"}, {"get", "a", ""}}}},
@@ -127,7 +133,7 @@ func (c c05) Run(ctx *core.Ctx) error {
 			scns = append(scns, s)
 		}
 	}
-	ctx.Ev.Rule = "6 scenarios of 2-3 client goroutines (1-2 operations each on colliding keys) plus the real flusher goroutine and, in two scenarios, a goroutine running one compaction cycle; every interleaving with at most N preemptions is executed on the real SimpleDB under a cooperative scheduler injected by source rewriting (scheduling points: every lock, channel and atomic operation and every statement touching the memstore pair / table list); each execution's history of call/return steps and results (plus a final sequential read of all keys) must be linearizable against a map; deadlock, panic and any API error are violations. distinct = (scenario, observed history class); non-trivial = executions with at least one preemption"
+	ctx.Ev.Rule = "7 scenarios of 2-3 client goroutines (1-2 operations each on colliding keys) plus the real flusher goroutine and, in two scenarios, a goroutine running one compaction cycle; every interleaving with at most N preemptions is executed on the real SimpleDB under a cooperative scheduler injected by source rewriting (scheduling points: every lock, channel and atomic operation and every statement touching the memstore pair / table list); each execution's history of call/return steps and results (plus a final sequential read of all keys) must be linearizable against a map; deadlock, panic and any API error are violations. distinct = (scenario, observed history class); non-trivial = executions with at least one preemption"
 	ctx.Ev.Bounds["scenarios"] = len(scns)
 	ctx.Ev.Assume = []string{"lock operations are atomic at their scheduling point (a parked thread has not called Lock yet), which is exact for the non-reentrant locking in simpledb",
 		"the compaction ticker goroutine is not part of the scenarios; one cycle runs in a harness goroutine through the tag-guarded helper"}
@@ -176,8 +182,12 @@ func (d dbScenario) Exec(w *core.WCtx, prefix []int) (x schedExec) {
 		if d.bg {
 			cmpOpt = simpledb.CompactionRunInterval(time.Hour) // the shim's ticker only fires when the harness says so
 		}
-		db, err := simpledb.NewSimpleDB(dir, cmpOpt, simpledb.MemstoreSizeBytes(d.mem),
-			simpledb.CompactionFileThreshold(d.thresh), simpledb.WriteBufferSizeBytes(4096), simpledb.ReadBufferSizeBytes(4096))
+		opts := []simpledb.ExtraOption{cmpOpt, simpledb.MemstoreSizeBytes(d.mem),
+			simpledb.CompactionFileThreshold(d.thresh), simpledb.WriteBufferSizeBytes(4096), simpledb.ReadBufferSizeBytes(4096)}
+		if d.maxSize > 0 {
+			opts = append(opts, simpledb.CompactionMaxSizeBytes(d.maxSize))
+		}
+		db, err := simpledb.NewSimpleDB(dir, opts...)
 		if err == nil {
 			err = db.Open()
 		}
